@@ -292,6 +292,27 @@ let handle (req : sexp) : String.t =
                   "order", jopt jnames (sorted_names o false);
                   "order_ru", jopt jnames (sorted_names o true);
                   "missing", jnames (missing_names o) ])
+  | L [A "roundtrip"] ->
+      (* model-level save -> load: the items the writer mirror produces for the current model, loaded again *)
+      let o = ode_of !cur_comps in
+      let pick l names = List.filter_map (fun n -> find_decl l n) names in
+      let sts = pick o.o_states (state_names o) and prs = pick o.o_params (param_names o) in
+      let asg = List.filter_map (fun n -> find_assign o n) (inter_names o @ deriv_names o) in
+      let items = save_items sts prs asg in
+      (match load_comps items with
+       | Err e -> jobj ["status", jstr "err"; "error", jerr e]
+       | Ok cs_ ->
+           let o2 = ode_of cs_ in
+           jobj [ "status", jstr "ok";
+                  "state_names", jnames (state_names o2);
+                  "sorted_states", jopt jnames (sorted_states o2);
+                  "params", jnames (param_names o2);
+                  "inters", jnames (inter_names o2);
+                  "derivs", jnames (deriv_names o2);
+                  "order", jopt jnames (sorted_names o2 false);
+                  "order_ru", jopt jnames (sorted_names o2 true);
+                  "missing", jnames (missing_names o2);
+                  "membership", jlist (fun (c, ns) -> "[" ^ jstr (os c) ^ "," ^ jnames ns ^ "]") (membership cs_) ])
   | L [A "whole"] ->
       cur := Some (ode_of !cur_comps); jobj ["status", jstr "ok"]
   | L [A "mirror"; A kind; A ru; A order] ->
